@@ -118,8 +118,7 @@ def apply_history(space, make, hist):
     if hist and hist[0][0] == "ctor":
         t = lib_transform(space, hist[0][1])
         d = make(t)
-        if space == "hyperbolic":
-            _scribble(t)        # (ProjectiveDrawing keeps the constructor's transform object itself: by design, not scribbled on)
+        _scribble(t)
         hist = hist[1:]
     else:
         d = make(None)
@@ -208,7 +207,12 @@ def new_proj_drawing(chart, tf, hist=None):
 
     def make(t):
         return drawtools.ProjectiveDrawing(chart_index=chart, transform=t)
-    d = apply_history("projective", make, hist) if hist is not None else make(lib_transform("projective", tf))
+    if hist is not None:
+        d = apply_history("projective", make, hist)
+    else:
+        t = lib_transform("projective", tf)
+        d = make(t)
+        _scribble(t)
     _decoy_axes(plt)
     return d
 
